@@ -371,6 +371,7 @@ def oracle_compose(m: onnx.ModelProto, form: str, seed: int) -> list[tuple[str, 
     rng = random.Random(seed)
     fails: list[tuple[str, str]] = []
     before = m.SerializeToString(deterministic=True)
+    m_ref = fresh(before)  # what "m itself computes" is judged on a private copy
     ins = [i.name for i in m.graph.input]
     outs = [o.name for o in m.graph.output]
     opset = next((o.version for o in m.opset_import if o.domain in ("", "ai.onnx")), 17)
@@ -385,7 +386,7 @@ def oracle_compose(m: onnx.ModelProto, form: str, seed: int) -> list[tuple[str, 
 
     def direct(vals: dict, omit=()):
         try:
-            return dict(zip(outs, ort_run(m, {k: v for k, v in vals.items() if k not in omit})))
+            return dict(zip(outs, ort_run(m_ref, {k: v for k, v in vals.items() if k not in omit})))
         except Exception as e:  # noqa: BLE001 - m itself is not runnable: not a verdict on inline
             raise Infra(f"onnxruntime cannot run m itself: {e}") from e
 
@@ -614,7 +615,9 @@ def make_models(ck: core.Check, n_hand: int, n_spox: int):
             dropped += 1
             if dropped > 20 * n_hand + 50:
                 raise RuntimeError("hand generator produces mostly invalid models")
-    library = [m for m, meta in models if meta["runnable"] and len(m.graph.output) >= 1][:40]
+    # every model is snapshotted as bytes the moment it exists; all later phases work on fresh copies
+    snaps = [m.SerializeToString(deterministic=True) for m, _ in models]
+    library = [fresh(b) for b, (m, meta) in zip(snaps, models) if meta["runnable"] and len(m.graph.output) >= 1][:40]
     with warnings.catch_warnings():
         warnings.simplefilter("ignore")
         made = 0
@@ -628,11 +631,39 @@ def make_models(ck: core.Check, n_hand: int, n_spox: int):
                 continue
             if valid(m, True, rng):
                 models.append((m, meta))
-                library.append(m)
+                snaps.append(m.SerializeToString(deterministic=True))
+                library.append(fresh(snaps[-1]))
                 made += 1
             else:
                 dropped += 1
-    return models, dropped
+    return [(fresh(b), meta) for b, (_, meta) in zip(snaps, models)], snaps, dropped
+
+
+def fresh(b: bytes) -> onnx.ModelProto:
+    m = onnx.ModelProto()
+    m.ParseFromString(b)
+    return m
+
+
+def purity(m: onnx.ModelProto) -> list[tuple[str, str]]:
+    """inline(m) alone (and one call) must leave m's bytes alone. Model-free."""
+    from spox import argument, inline
+
+    before = m.SerializeToString(deterministic=True)
+    try:
+        with warnings.catch_warnings():
+            warnings.simplefilter("ignore")
+            f = inline(m)
+            mid = m.SerializeToString(deterministic=True)
+            f(*[argument(spox_type(concrete(L.type_json(i.type)))) for i in m.graph.input])
+    except Exception:  # noqa: BLE001 - judged elsewhere
+        mid = m.SerializeToString(deterministic=True)
+    after = m.SerializeToString(deterministic=True)
+    if mid != before:
+        return [("m-modified", "inline(m) changed the caller's model (bytes differ before/after)")]
+    if after != before:
+        return [("m-modified", "calling inline(m)(...) changed the caller's model (bytes differ before/after)")]
+    return []
 
 
 class IntLits(L.Lits):
@@ -660,7 +691,7 @@ def run(ck: core.Check):
 
     rng = ck.rng
     n_hand, n_spox = ck.pick((220, 80), (2500, 800))
-    models, dropped = make_models(ck, n_hand, n_spox)
+    models, snaps, dropped = make_models(ck, n_hand, n_spox)
     ck.log(f"{len(models)} models generated ({dropped} invalid candidates dropped)")
     feature_hist: dict[str, int] = {}
     for _, meta in models:
@@ -673,7 +704,8 @@ def run(ck: core.Check):
     n_forms = ck.pick(4, 8)
     with warnings.catch_warnings():
         warnings.simplefilter("ignore")
-        for mi, (m, meta) in enumerate(models):
+        for mi, (_, meta) in enumerate(models):
+            m = fresh(snaps[mi])
             variants = [m]
             if mi % 7 == 0:
                 variants.append(L.add_local_function(m))
@@ -742,8 +774,12 @@ def run(ck: core.Check):
     form_hist: dict[str, int] = {}
     n_oracle = 0
     for mi, (m, meta) in enumerate(models):
+        for key, what in purity(fresh(snaps[mi])):
+            ck.failure(key, what, {"kind": "purity", "model": L.to_b64(fresh(snaps[mi])), "summary": L.summary(m)})
+        if m.SerializeToString(deterministic=True) != snaps[mi]:
+            raise core_infra("a model of the case list changed although only copies are handed out")
         seed0 = rng.randrange(1 << 30)
-        for key, what in oracle_errors(m, seed0):
+        for key, what in oracle_errors(fresh(snaps[mi]), seed0):
             ck.failure(key, what, {"kind": "errors", "model": L.to_b64(m), "seed": seed0, "summary": L.summary(m)})
         if not meta["runnable"]:
             ck.count(None)
@@ -751,7 +787,7 @@ def run(ck: core.Check):
         forms = list(FORMS) if (ck.thorough or meta["kind"] == "corner") else ["once"] + rng.sample(FORMS[1:], 2)
         for form in forms:
             seed1 = rng.randrange(1 << 30)
-            fs = oracle_compose(m, form, seed1)
+            fs = oracle_compose(fresh(snaps[mi]), form, seed1)
             form_hist[form] = form_hist.get(form, 0) + 1
             n_oracle += 1
             ck.count(("compose", mi, form) if len(m.graph.node) >= 1 else None)
@@ -783,15 +819,24 @@ def run(ck: core.Check):
     ]
 
 
+def core_infra(msg: str) -> Exception:
+    return RuntimeError(msg)
+
+
 def replay(ck: core.Check, doc) -> bool:
     case = doc["case"]
     m = L.from_b64(case["model"])
     with warnings.catch_warnings():
         warnings.simplefilter("ignore")
-        if case["kind"] == "errors":
+        if case["kind"] == "purity":
+            fs = purity(m)
+        elif case["kind"] == "errors":
             fs = oracle_errors(m, case["seed"])
         else:
             fs = oracle_compose(m, case["form"], case["seed"])
     for key, what in fs:
         print(f"{key}: {what}")
-    return bool(fs)
+    known = {f["key"] for f in ck._findings if f["property"] == "C08" and f.get("status") == "known"}
+    if doc.get("key") in known:
+        return bool(fs)
+    return any(k not in known for k, _ in fs)  # listed known findings are not what this replay is about
